@@ -42,13 +42,14 @@ def work(patch):
 seeds = sorted(glob.glob(os.path.join(VERIF, a.dir, "C*", "m*", "patch.diff")) + glob.glob(os.path.join(VERIF, a.dir, "C*-m*", "patch.diff")))
 if a.seeds:
     seeds = [s for s in seeds if any(x in s for x in a.seeds.split(","))]
-with ProcessPoolExecutor(a.jobs) as ex:
-    rows = list(ex.map(work, seeds))
 caught = 0
-for pid, mk, st, hits, errs in rows:
-    own = pid in hits
-    caught += bool(hits)
-    print(f"{pid} {mk}: {st:8s} own={'Y' if own else '-'} caught_by={','.join(hits) or '-'}" + (f" analysis_error={','.join(errs)}" if errs else ""))
+rows = []
+with ProcessPoolExecutor(a.jobs) as ex:
+    for pid, mk, st, hits, errs in ex.map(work, seeds):
+        rows.append((pid, mk, st, hits, errs))
+        own = pid in hits
+        caught += bool(hits)
+        print(f"{pid} {mk}: {st:8s} own={'Y' if own else '-'} caught_by={','.join(hits) or '-'}" + (f" analysis_error={','.join(errs)}" if errs else ""), flush=True)
 print(f"{caught}/{len(rows)} caught; conflicts: {sum(1 for r in rows if r[2] == 'CONFLICT')}")
 json.dump([{"property": p, "seed": m, "status": s, "caught_by": h, "analysis_error": e} for p, m, s, h, e in rows],
           open("/tmp/seedmatrix.json", "w"), indent=1)
